@@ -1,5 +1,6 @@
 /-
-  Props/C12.lean — property theorems for C12 (stub; to be filled in).
+  Props/C12.lean — property theorems for C12 (in progress).
 -/
+import TypedpyModel.Spec.FieldSet
 namespace Typedpy.C12
 end Typedpy.C12
